@@ -324,7 +324,7 @@ def vocab_of(g: G) -> Optional[List[Tuple[str, bool, G]]]:
         import re as _re
         from .strctx import regex_literal_alternatives
         try:
-            alts = regex_literal_alternatives(g.a['pattern'])
+            alts = regex_literal_alternatives(g.a['pattern'], blanks=True)
         except Exception:
             return None
         if not alts or any(a is None for a in alts):
